@@ -181,19 +181,22 @@ def parseNamedType (fl : Flags) : P NamedType := do
   let name ← parseName fl
   pure { name := name, loc := ← mkLoc fl start }
 
+/-- the `if self.skip(BracketOpen): … else: …` part of `parse_type_reference` (recursive call = `rec_`) -/
+def parseTypeInner (fl : Flags) (rec_ : P TypeRef) (start : Tok) : P TypeRef := do
+  if (← skip .bracketL) then do
+    let inner ← rec_
+    let _ ← expect .bracketR
+    pure (TypeRef.list inner (← mkLoc fl start))
+  else do
+    let t ← parseNamedType fl
+    pure (TypeRef.named t)
+
 /-- `parse_type_reference` -/
 def parseTypeReference (fl : Flags) : Nat → P TypeRef
   | 0 => fail "fuel"
   | n + 1 => do
     let start ← peek
-    let type_ ←
-      (do if (← skip .bracketL) then do
-            let inner ← parseTypeReference fl n
-            let _ ← expect .bracketR
-            pure (TypeRef.list inner (← mkLoc fl start))
-          else do
-            let t ← parseNamedType fl
-            pure (TypeRef.named t) : P TypeRef)
+    let type_ ← parseTypeInner fl (parseTypeReference fl n) start
     if (← skip .bang) then pure (TypeRef.nonNull type_ (← mkLoc fl start))
     else pure type_
 
